@@ -284,6 +284,7 @@ def check_case(case):
     if out['errors']:
         viols.append(('harness:node-died', out['errors'][0]))
     o = Outcome(cls=root, transitions=out['nodes'], viols=viols, nontrivial=out['nontrivial'] > 0, validated=out['nodes'])
+    o.extra = {'nontrivial_nodes': out['nontrivial'], 'distinct_logger_observations': len(out['obs'])}
     return o
 
 
@@ -351,6 +352,7 @@ def run(ctx):
     ctx.coverage_extra['states'] = rep.transitions
     ctx.coverage_extra['subtrees'] = rep.evaluations
     ctx.coverage_extra['evaluations'] = rep.transitions
+    ctx.coverage_extra['distinct_nontrivial'] = int(rep.extra.get('nontrivial_nodes', 0))
     return rep
 
 
